@@ -217,12 +217,20 @@ Definition open_checks_on (h sfv : Z) (o : openop) : bool :=
 Definition open_store (s : state) (o : openop) : state :=
   with_funds (with_pm (op_mod o) s (pset (pm (op_mod o) s) (op_owner o) (op_id o) (Some (op_pos o))))
              (pay_all (st_funds s) (op_owner o) (op_debit o)).
-(* the code as it is: the comparison is made on op_hcheck *)
-Definition open_step (s : state) (o : openop) : res state :=
+(* the code BEFORE fix: ba85cca: the comparison is made on op_hcheck only *)
+Definition open_step_prefix (s : state) (o : openop) : res state :=
   if negb (op_pre o) then Err 3 else
   if negb (open_checks_on (op_hcheck o) (sf (op_mod o) s) o) then Err 4    (* ErrPositionUnhealthy / ErrMTPUnhealthy *)
   else Ok (open_store s o).
-(* repaired: the comparison is (also) made on the health of the position as the transaction leaves it *)
+(* the code as it is: perpetual Open / OpenConsolidate repeat the comparison on the health of the position as the
+   transaction leaves it (CheckHealthAfterOpen, after the hooks); leveragelp compares op_hcheck only *)
+Definition rechecks (m : module) : bool := match m with MPerp => true | MLev => false end.
+Definition open_step (s : state) (o : openop) : res state :=
+  if negb (op_pre o) then Err 3 else
+  if negb (open_checks_on (op_hcheck o) (sf (op_mod o) s) o &&
+           (negb (rechecks (op_mod o)) || open_ok (op_health o) (sf (op_mod o) s))) then Err 4
+  else Ok (open_store s o).
+(* the comparison repeated on the final health for BOTH modules *)
 Definition open_step_fixed (s : state) (o : openop) : res state :=
   if negb (op_pre o) then Err 3 else
   if negb (open_checks_on (op_hcheck o) (sf (op_mod o) s) o && open_ok (op_health o) (sf (op_mod o) s)) then Err 4
